@@ -280,6 +280,18 @@ def corpus():
       edit(mm, MMQ + 'geos_within_constraints', lambda n: isinstance(n, ast.Assign) and norm(n.targets[0]) == 'geos' and 'n_geos_free' in norm(n.value), lambda s, n: 'geos = set(geos_in_order[:n_geos_max])'))
   add('C01', 'treatment IDs mapped from the control indices', 'bad', 'R5/index-to-id', edit(mm, MMQ + 'search_results', lambda n: isinstance(n, ast.Attribute) and norm(n) == 'd.treatment_geos', 'd.control_geos'))
   add('C01', 'assignable = all (keeps must-exclude geos)', 'bad', 'R4/admitted', edit(md, 'TBRMMData.__init__', is_assign_to('assignable'), lambda s, n: 'assignable = geo_assignments.all'))
+  dsn = 'tbrmmdesign'
+  is_if_on = lambda t_: (lambda n: isinstance(n, ast.If) and norm(n.test) == t_)
+  add('C01', 'design constructor: empty-control guard dropped', 'bad', 'R1/construction', delete_stmt(dsn, 'TBRMMDesign.__post_init__', is_if_on('not self.control_geos')))
+  add('C01', 'design constructor: emptiness guard requires both groups empty', 'bad', 'R1/construction',
+      multi(edit(dsn, 'TBRMMDesign.__post_init__', lambda n: isinstance(n, ast.If) and norm(n.test) == 'not self.treatment_geos', lambda s_, n: s_.replace('not self.treatment_geos', 'not self.treatment_geos and not self.control_geos')),
+            delete_stmt(dsn, 'TBRMMDesign.__post_init__', is_if_on('not self.control_geos'))))
+  add('C01', 'design constructor: overlap test inverted', 'bad', 'R1/construction',
+      edit(dsn, 'TBRMMDesign.__post_init__', lambda n: isinstance(n, ast.If) and norm(n.test) == 'overlapping_geos', lambda s_, n: s_.replace('if overlapping_geos:', 'if not overlapping_geos:', 1)))
+  add('C01', 'benign: design constructor tests sizes and disjointness', 'benign', None,
+      multi(edit(dsn, 'TBRMMDesign.__post_init__', lambda n: isinstance(n, ast.If) and norm(n.test) == 'not self.treatment_geos', lambda s_, n: s_.replace('not self.treatment_geos', 'len(self.treatment_geos) < 1')),
+            edit(dsn, 'TBRMMDesign.__post_init__', lambda n: isinstance(n, ast.If) and norm(n.test) == 'not self.control_geos', lambda s_, n: s_.replace('not self.control_geos', '0 == len(self.control_geos)')),
+            edit(dsn, 'TBRMMDesign.__post_init__', lambda n: isinstance(n, ast.If) and norm(n.test) == 'overlapping_geos', lambda s_, n: s_.replace('if overlapping_geos:', 'if not self.control_geos.isdisjoint(self.treatment_geos):', 1))))
   add('C01', 'benign: set difference spelled as a method', 'benign', None, edit(mm, MMQ + 'control_group_generator', is_assign_to('varying_control_geos'),
                                                                                lambda s, n: 'varying_control_geos = possible_control_geos.difference(fixed_control_geos)'))
   # ---- C02
